@@ -280,12 +280,22 @@ func runTrial(t fataler, tr trial) int64 {
 	persist(tr)
 	defer unpersist()
 	clientEnd, s := script.New()
+	// lastActivity: when the last byte was written by either side. A call that
+	// is overdue is only a hang if the connection has been silent as well; on
+	// an overloaded machine bytes keep trickling.
+	var lastActivity int64
+	atomic.StoreInt64(&lastActivity, time.Now().UnixNano())
+	touch := func([]byte) { atomic.StoreInt64(&lastActivity, time.Now().UnixNano()) }
+	clientEnd.OnWrite = touch
+	s.Conn.OnWrite = touch
+	silentFor := func() time.Duration { return time.Since(time.Unix(0, atomic.LoadInt64(&lastActivity))) }
 	if tr.noise != 0 {
 		// schedule noise at the only points the harness owns: every network
 		// write of the client and of the scripted server is followed, with a
 		// seeded pseudo-random choice, by a yield or a short sleep
 		var ctr uint64
-		jitter := func([]byte) {
+		jitter := func(b []byte) {
+			touch(b)
 			x := atomic.AddUint64(&ctr, 1)*0x9E3779B97F4A7C15 ^ tr.noise
 			x ^= x >> 29
 			x *= 0xBF58476D1CE4E5B9
@@ -331,7 +341,23 @@ func runTrial(t fataler, tr trial) int64 {
 		case err := <-done:
 			note("%s %s -> %v", who, what, err != nil)
 		case <-time.After(15 * time.Second):
-			failed <- fmt.Sprintf("%s: %s did not return within 15s (submitted command never completed)", who, what)
+			// overdue. It is a hang if nothing moves any more: no byte has been
+			// written by either side for 10 s (otherwise the machine is merely
+			// slow: keep waiting, up to 3 minutes)
+			limit := time.Now().Add(3 * time.Minute)
+		patient:
+			for {
+				select {
+				case err := <-done:
+					note("%s %s -> %v (late)", who, what, err != nil)
+					break patient
+				case <-time.After(500 * time.Millisecond):
+				}
+				if silentFor() > 10*time.Second || time.Now().After(limit) {
+					failed <- fmt.Sprintf("%s: %s did not return within 15s and the connection has been silent for %v (submitted command never completed)", who, what, silentFor().Round(time.Second))
+					break patient
+				}
+			}
 		}
 		atomic.AddInt64(&inflight, -1)
 	}
@@ -502,8 +528,8 @@ func runTrial(t fataler, tr trial) int64 {
 	case <-allDone:
 	case msg := <-failed:
 		fail(msg)
-	case <-time.After(40 * time.Second):
-		fail("workers did not finish within 40s")
+	case <-time.After(6 * time.Minute):
+		fail("workers did not finish within 6 minutes")
 	}
 	select {
 	case msg := <-failed:
@@ -515,7 +541,18 @@ func runTrial(t fataler, tr trial) int64 {
 	select {
 	case <-closed:
 	case <-time.After(15 * time.Second):
-		fail("Client.Close() did not return within 15s")
+		// same rule: overdue and silent
+		for wait := 0; ; wait++ {
+			select {
+			case <-closed:
+			case <-time.After(time.Second):
+				if silentFor() > 10*time.Second || wait > 120 {
+					fail("Client.Close() did not return within 15s")
+				}
+				continue
+			}
+			break
+		}
 	}
 	s.Close()
 	<-sv.done
